@@ -1,5 +1,7 @@
 """Builds libdjinterop (from /repo's *working tree*) and the harness binaries, with a content-hash cache."""
-import fcntl, glob, hashlib, os, re, shutil, subprocess, sys, tempfile
+import fcntl, glob, hashlib, os, re, shutil, subprocess, sys, tempfile, time
+
+KEEP_S = 4 * 3600   # binaries / archives younger than this are never pruned: a concurrent long campaign may be using them
 from concurrent.futures import ThreadPoolExecutor
 
 ROOT = os.path.dirname(os.path.dirname(os.path.abspath(__file__)))
@@ -164,7 +166,8 @@ def build_lib(variant):
         old_ars = sorted(glob.glob(os.path.join(BUILD, variant, "libdj.*.a")), key=os.path.getmtime)
         for f in old_ars[:-3]:
             try:
-                os.unlink(f)
+                if time.time() - os.path.getmtime(f) > KEEP_S:   # a long campaign may still link against / run it
+                    os.unlink(f)
             except OSError:
                 pass
         tmp = ar + ".tmp%d" % os.getpid()
@@ -208,7 +211,8 @@ def build_harness(name, sources, variant, extra_flags=(), libs=("-lrapidcheck", 
         old_bins = sorted((f for f in glob.glob(os.path.join(BUILD, variant, "bin", name + ".*")) if ".tmp" not in f), key=os.path.getmtime)
         for f in old_bins[:-3]:
             try:
-                os.unlink(f)
+                if time.time() - os.path.getmtime(f) > KEEP_S:
+                    os.unlink(f)
             except OSError:
                 pass
         tmp = exe + ".tmp%d" % os.getpid()
@@ -218,6 +222,10 @@ def build_harness(name, sources, variant, extra_flags=(), libs=("-lrapidcheck", 
         if r.returncode != 0:
             raise BuildError("link failed: %s\n%s" % (" ".join(cmd), r.stdout[-6000:]))
         os.replace(tmp, exe)
+    try:
+        os.utime(exe, None)   # mark as in use (pruning is by age)
+    except OSError:
+        pass
     return exe
 
 
